@@ -17,10 +17,13 @@ Fixpoint lookup (t : Z) (l : list (Z * Z)) : option Z :=
 
 Definition tid_of (l : label) : Z :=
   match l with
-  | LReqSet t | LReqNotify t _ | LAcqCache t | LAcqCheck t | LFreshEnd t _ | LOnCbEnd t | LAcqMark t | LAcqFast t
-  | LCreStart t | LCreEnd t _ | LAcqRestore t | LDrop t | LBlocked t => t
+  | LReqSet t | LReqNotify t _ | LAcqCache t | LAcqCheck t | LFreshEnd t _ | LOnCbEnd t _ | LAcqMark t | LAcqFast t
+  | LCreStart t | LCreEnd t _ | LCrePanic t | LAcqRestore t | LDrop t | LBlocked t => t
   end.
 Definition is_drop (l : label) : bool := match l with LDrop _ => true | _ => false end.
+(* an operation that ended in a panic: it handed out nothing, it did not return, and the step in which it
+   panicked took no effect (a request_reload that panics on the poisoned notifier mutex has not been made) *)
+Definition panicked (e : event) : bool := match obs e with RPanic => true | _ => false end.
 
 (* ---- 1. no lost request ------------------------------------------------------------------------
    "Once request_reload() has returned, the next acquire_env() hands out an environment that was
@@ -40,7 +43,7 @@ Definition nl_lab (x : nl) (l : label) : nl :=
   end.
 (* ... then of what returned in it *)
 Definition nl_step (x : nl) (e : event) : option nl :=      (* None = violated *)
-  let x1 := nl_lab x (lab e) in
+  let x1 := if panicked e then x else nl_lab x (lab e) in
   match obs e with
   | RReq =>
       Some {| nset := nset x1; pend := pend x1;
@@ -96,12 +99,14 @@ Definition guard_ok (tr : list event) : bool := g_check None tr.
 Record sp := { pending : bool; have_env : bool; just : bool }.
 Definition sp_init : sp := {| pending := false; have_env := false; just := false |}.
 Definition sp_step (x : sp) (e : event) : option sp :=
+  if panicked e then Some x else
   match lab e with
   | LReqSet _ | LAcqRestore _ => Some {| pending := true; have_env := have_env x; just := just x |}
   | LAcqMark _ => Some {| pending := false; have_env := have_env x; just := just x |}
   | LAcqCache _ => Some {| pending := pending x; have_env := have_env x; just := negb (have_env x) |}
   | LAcqCheck _ => Some {| pending := pending x; have_env := have_env x; just := just x || pending x |}
-  | LFreshEnd _ ans => Some {| pending := pending x; have_env := have_env x; just := just x || ans |}
+  | LFreshEnd _ ans => Some {| pending := pending x; have_env := have_env x;
+                               just := just x || match ans with CbTrue => true | _ => false end |}
   | LCreStart _ => if just x then Some x else None
   | LAcqFast _ => match obs e with REnv _ => if just x then Some x else None | _ => Some x end
   | LCreEnd _ ok => Some {| pending := pending x; have_env := have_env x || ok; just := just x |}
